@@ -60,7 +60,7 @@ func (env *Env) assigned(n ast.Node) []string {
 	return out
 }
 
-func tuple(vars []string) string {
+func pureTuple(vars []string) string {
 	if len(vars) == 1 {
 		return vars[0]
 	}
@@ -73,7 +73,7 @@ func (env *Env) pureIf(x *ast.IfStmt, rest []ast.Stmt, ind string) (string, erro
 		// no effect on modelled state
 		return env.block(rest, ind)
 	}
-	sub := &Env{Names: copyNames(env.Names), Calls: env.Calls, Ret: env.Ret, Fall: tuple(vars), OptCalls: env.OptCalls, Types: env.Types}
+	sub := &Env{Names: copyNames(env.Names), Calls: env.Calls, Ret: env.Ret, Fall: pureTuple(vars), OptCalls: env.OptCalls, Types: env.Types}
 	var tys []string
 	for _, v := range vars {
 		tys = append(tys, env.typeOf(v))
@@ -87,9 +87,9 @@ func (env *Env) pureIf(x *ast.IfStmt, rest []ast.Stmt, ind string) (string, erro
 		return "", err
 	}
 	if env.Types == nil {
-		return "let " + tuple(vars) + " := " + e + "\n" + ind + k, nil
+		return "let " + pureTuple(vars) + " := " + e + "\n" + ind + k, nil
 	}
-	return "let " + tuple(vars) + " := (" + e + " : " + strings.Join(tys, " × ") + ")\n" + ind + k, nil
+	return "let " + pureTuple(vars) + " := (" + e + " : " + strings.Join(tys, " × ") + ")\n" + ind + k, nil
 }
 
 // ifExpr renders one if statement (no returns inside) as an expression whose value is env.Fall after the updates.
